@@ -1245,4 +1245,371 @@ theorem getFromGroupList_exec (m : Mem) (bk bl an : Nat) (gl : List (Nat × List
     rw [exec_seq_normal hl']
     exact ⟨(A gl.length).loc, by simp [exec, evalE, evalL, readPlace, bind, Except.bind, A]⟩
 
+/-! ## `setGroupList` (lib/helpers.c) -/
+
+theorem loadSlot_of {m : Mem} {b : Nat} {blk : Block} {i : Nat} {v : Val} (h1 : m[b]? = some blk) (h2 : blk.live = true)
+    (h3 : blk.slots[i]? = some v) (hv : v ≠ .undef) : m.loadSlot b (i : Int) = .ok v := by
+  have hn : ¬ ((i : Int) < 0) := by omega
+  cases v <;> simp_all [Mem.loadSlot, Mem.block, bind, Except.bind]
+
+theorem storeSlot_of {m : Mem} {b : Nat} {blk : Block} {i : Nat} (v : Val) (h1 : m[b]? = some blk) (h2 : blk.live = true) (h3 : blk.writable = true)
+    (hi : i < blk.slots.length) : m.storeSlot b (i : Int) v = .ok (m.set b { blk with slots := blk.slots.set i v }) := by
+  have hn : ¬ ((i : Int) < 0) := by omega
+  simp [Mem.storeSlot, Mem.block, h1, h2, h3, hn, hi, bind, Except.bind]
+
+theorem realloc_words_spec (m : Mem) (b : Nat) (blk : Block) (n : Nat) (h1 : m[b]? = some blk) (h2 : blk.live = true) :
+    builtin "realloc_words" [.ptr b 0, .int (n : Int)] m =
+      .ok (.ptr m.length 0, m.set b { blk with live := false } ++
+        [{ cells := [], slots := blk.slots.take n ++ List.replicate (n - (blk.slots.take n).length) .undef }]) := by
+  simp [builtin, Mem.block, h1, h2, bind, Except.bind]
+
+theorem arith_u64 (n : Int) : arith .u64 n = .ok (.int (wrapTo .u64 n)) := by simp [arith, Ty.signed]
+
+/-- `a + b` / `a - b` in `int`, operands without side effects -/
+theorem evalE_addsub_i32 (st : St) (a b : Expr) (x y : Int) (sub : Bool)
+    (ha : evalE a st = .ok (.int x, st)) (hb : evalE b st = .ok (.int y, st))
+    (h1 : -2147483648 ≤ (if sub then x - y else x + y)) (h2 : (if sub then x - y else x + y) < 2147483648) :
+    evalE (.bin (if sub then .sub else .add) a b .i32) st = .ok (.int (if sub then x - y else x + y), st) := by
+  have har := arith_i32 _ h1 h2
+  have hbin : binop st.mem (if sub then .sub else .add) .i32 (.int x) (.int y) = .ok (.int (if sub then x - y else x + y)) := by
+    cases sub <;> simp_all [binop, cmpInt]
+  simp only [evalE, ha, hb, bind, Except.bind, hbin]
+
+/-- `x->member++` / `x->member--` on an `int` member -/
+theorem incdec_i32_slot (m m' : Mem) (loc : List Val) (e : Expr) (b : Nat) (k : Nat) (n : Int) (inc : Bool)
+    (he : evalE e { mem := m, loc := loc } = .ok (.ptr b 0, { mem := m, loc := loc }))
+    (hl : m.loadSlot b (k : Int) = .ok (.int n))
+    (h1 : -2147483648 ≤ (if inc then n + 1 else n - 1)) (h2 : (if inc then n + 1 else n - 1) < 2147483648)
+    (hs : m.storeSlot b (k : Int) (.int (if inc then n + 1 else n - 1)) = .ok m') :
+    evalE (.incdec (.slot e k) inc true .i32) { mem := m, loc := loc } = .ok (.int n, { mem := m', loc := loc }) := by
+  have hb : binop m (if inc then .add else .sub) .i32 (.int n) (.int 1) = .ok (.int (if inc then n + 1 else n - 1)) := by
+    have ha := arith_i32 _ h1 h2
+    cases inc <;> simp_all [binop, cmpInt]
+  have hc : convert .i32 (.int (if inc then n + 1 else n - 1)) = .ok (.int (if inc then n + 1 else n - 1)) := by
+    have hw := wrapTo_i32 _ h1 h2
+    simp [convert, hw]
+  simp only [evalE, evalL, he, bind, Except.bind, readPlace, Int.zero_add, hl]
+  simp only [hb]
+  simp only [show (Ty.i32 == Ty.ptr) = false from rfl]
+  simp only [Bool.false_eq_true, if_false, hc, writePlace]
+  simp only [hs, Except.map, if_true]
+
+def sgCount1 : Expr := .bin .add (.load (.slot (.load (.var 0) .ptr) 14) .i32) (.lit 1 .i32) .i32
+def sgRealloc : Expr := .call "realloc_words" (.cons (.load (.slot (.load (.var 0) .ptr) 13) .ptr) (.cons (.bin .mul (.cast .u64 sgCount1) (.lit 1 .u64) .u64) .nil))
+def sgIdx : Expr := .bin .sub (.load (.slot (.load (.var 0) .ptr) 14) .i32) (.lit 1 .i32) .i32
+def sgLast : Expr := .sidx (.load (.slot (.load (.var 0) .ptr) 13) .ptr) sgIdx 1
+def sgGrow : Stmt := .seq (.expr (.assign (.slot (.sidx (.load (.slot (.load (.var 0) .ptr) 13) .ptr) (.load (.slot (.load (.var 0) .ptr) 14) .i32) 1) 0) .null .ptr))
+  (.seq (.expr (.assign (.slot sgLast 0) (.call "strdup" (.cons (.load (.var 1) .ptr) .nil)) .ptr))
+    (.expr (.assign (.var 2) (.load (.slot sgLast 0) .ptr) .ptr)))
+
+theorem setGroupList_shape : LeafFns.setGroupList.body =
+    .seq (.inl (some (.var 2)) .ptr (.cons (.load (.var 0) .ptr) (.cons (.load (.var 1) .ptr) .nil)) 4 LeafFns.getFromGroupList.body)
+      (.seq (.ite (.bin .ne (.load (.var 2) .ptr) .null .i32) (.ret (some (.load (.var 2) .ptr))) .skip)
+        (.seq (.expr (.incdec (.slot (.load (.var 0) .ptr) 14) true true .i32))
+          (.seq (.expr (.assign (.slot (.load (.var 0) .ptr) 13) sgRealloc .ptr))
+            (.seq (.ite (.bin .eq (.load (.slot (.load (.var 0) .ptr) 13) .ptr) .null .i32)
+                (.expr (.incdec (.slot (.load (.var 0) .ptr) 14) false true .i32)) sgGrow)
+              (.ret (some (.load (.var 2) .ptr))))))) := rfl
+
+/-- `setGroupList`, the name is already in the list: its element is returned, nothing changes -/
+theorem setGroupList_found (m : Mem) (bk bl an : Nat) (gl : List (Nat × List UInt8)) (nm : List UInt8) (h : GlMem m bk bl gl)
+    (hn : m.cstr an 0 = .ok nm) (hsmall : (gl.length : Int) + 1 < 2147483648) (fuel : Nat) (hf : gl.length + 1 < fuel)
+    (hlt : firstN gl nm < gl.length) :
+    ∃ loc', exec fuel LeafFns.setGroupList.body { mem := m, loc := [.ptr bk 0, .ptr an 0, .undef] } =
+      .ret (.ptr (gl[firstN gl nm]).1 0) { mem := m, loc := loc' } := by
+  obtain ⟨loc1, hg⟩ := getFromGroupList_exec m bk bl an gl nm h hn hsmall fuel hf
+  simp only [hlt, dite_true] at hg
+  have ha : evalArgs (.cons (.load (.var 0) .ptr) (.cons (.load (.var 1) .ptr) .nil)) { mem := m, loc := [.ptr bk 0, .ptr an 0, .undef] } =
+      .ok ([.ptr bk 0, .ptr an 0], { mem := m, loc := [.ptr bk 0, .ptr an 0, .undef] }) := by
+    simp [evalArgs, evalE, evalL, readPlace, bind, Except.bind]
+  have hinl := exec_inl_val (fuel := fuel) (nl := 4) (i := 2) (dty := .ptr) (v' := .ptr (gl[firstN gl nm]).1 0) ha (by simpa using hg)
+    (by simp [convert]) (by simp)
+  rw [setGroupList_shape, exec_seq_normal hinl]
+  refine ⟨[.ptr bk 0, .ptr an 0, .ptr (gl[firstN gl nm]).1 0], ?_⟩
+  have ht : testOf (some (.bin .ne (.load (.var 2) .ptr) .null .i32)) { mem := m, loc := [.ptr bk 0, .ptr an 0, .ptr (gl[firstN gl nm]).1 0] } =
+      .ok (true, { mem := m, loc := [.ptr bk 0, .ptr an 0, .ptr (gl[firstN gl nm]).1 0] }) := by
+    simp [testOf, evalE, evalL, readPlace, binop, boolVal, truth, bind, Except.bind]
+  simp only [List.set_cons_succ, List.set_cons_zero]
+  have hret : exec fuel (.ite (.bin .ne (.load (.var 2) .ptr) .null .i32) (.ret (some (.load (.var 2) .ptr))) .skip)
+      { mem := m, loc := [.ptr bk 0, .ptr an 0, .ptr (gl[firstN gl nm]).1 0] } =
+      .ret (.ptr (gl[firstN gl nm]).1 0) { mem := m, loc := [.ptr bk 0, .ptr an 0, .ptr (gl[firstN gl nm]).1 0] } := by
+    rw [exec_ite_true ht]; simp [exec, evalE, evalL, readPlace, bind, Except.bind]
+  rw [exec_seq_ret hret]
+
+/-- `setGroupList`, a new name: the counter goes up, the array is reallocated with one more element, the NULL terminator
+    and a fresh copy of the name are written; the caller's object now lists the old names and the new one -/
+theorem setGroupList_new (m : Mem) (bk bl an : Nat) (gl : List (Nat × List UInt8)) (nm : List UInt8) (h : GlMem m bk bl gl)
+    (hn : m.cstr an 0 = .ok nm) (hkw : ∀ blk, m[bk]? = some blk → blk.writable = true) (hne : bk ≠ bl)
+    (hd : ∀ e, e ∈ gl → e.1 ≠ bk ∧ e.1 ≠ bl) (han : an ≠ bk ∧ an ≠ bl)
+    (hsmall : (gl.length : Int) + 2 < 2147483648) (fuel : Nat) (hf : gl.length + 1 < fuel)
+    (hnew : ¬ firstN gl nm < gl.length) :
+    ∃ m' loc', exec fuel LeafFns.setGroupList.body { mem := m, loc := [.ptr bk 0, .ptr an 0, .undef] } =
+        .ret (.ptr (m.length + 1) 0) { mem := m', loc := loc' } ∧
+      GlMem m' bk m.length (gl ++ [(m.length + 1, nm)]) ∧ m'.length = m.length + 2 ∧
+      (∀ b, b < m.length → b ≠ bk → b ≠ bl → m'[b]? = m[b]?) ∧
+      (∀ kb kb', m[bk]? = some kb → m'[bk]? = some kb' → kb'.live = true ∧ kb'.writable = true ∧ kb'.cells = kb.cells ∧ kb'.slots.length = kb.slots.length ∧
+        ∀ i, i ≠ 13 → i ≠ 14 → kb'.slots[i]? = kb.slots[i]?) := by
+  obtain ⟨kblk, k1, k2, k3, k4⟩ := h.kf
+  obtain ⟨gblk, g1, g2, g3, g4⟩ := h.arr
+  have kw := hkw kblk k1
+  have hbk : bk < m.length := (List.getElem?_eq_some_iff.1 k1).1
+  have hbl : bl < m.length := (List.getElem?_eq_some_iff.1 g1).1
+  have h13 : 13 < kblk.slots.length := by
+    rcases List.getElem?_eq_some_iff.1 k3 with ⟨hlt, _⟩; exact hlt
+  have h14 : 14 < kblk.slots.length := by
+    rcases List.getElem?_eq_some_iff.1 k4 with ⟨hlt, _⟩; exact hlt
+  -- the look-up finds nothing
+  obtain ⟨loc1, hg⟩ := getFromGroupList_exec m bk bl an gl nm h hn (by omega) fuel hf
+  simp only [hnew, dite_false] at hg
+  have ha : evalArgs (.cons (.load (.var 0) .ptr) (.cons (.load (.var 1) .ptr) .nil)) { mem := m, loc := [.ptr bk 0, .ptr an 0, .undef] } =
+      .ok ([.ptr bk 0, .ptr an 0], { mem := m, loc := [.ptr bk 0, .ptr an 0, .undef] }) := by
+    simp [evalArgs, evalE, evalL, readPlace, bind, Except.bind]
+  have hinl := exec_inl_val (fuel := fuel) (nl := 4) (i := 2) (dty := .ptr) (v' := .null) ha (by simpa using hg) (by simp [convert]) (by simp)
+  simp only [List.set_cons_succ, List.set_cons_zero] at hinl
+  rw [setGroupList_shape, exec_seq_normal hinl]
+  have hS1 : exec fuel (.ite (.bin .ne (.load (.var 2) .ptr) .null .i32) (.ret (some (.load (.var 2) .ptr))) .skip)
+      { mem := m, loc := [.ptr bk 0, .ptr an 0, .null] } = .normal { mem := m, loc := [.ptr bk 0, .ptr an 0, .null] } := by
+    simp [exec, testOf, evalE, evalL, readPlace, binop, boolVal, truth, bind, Except.bind]
+  rw [exec_seq_normal hS1]
+  -- group_count++
+  let n := gl.length
+  let ks1 := kblk.slots.set 14 (.int ((n : Int) + 1))
+  let m1 : Mem := m.set bk { kblk with slots := ks1 }
+  have hcnt : m.loadSlot bk 14 = .ok (.int (n : Int)) := h.count
+  have hS2 : exec fuel (.expr (.incdec (.slot (.load (.var 0) .ptr) 14) true true .i32)) { mem := m, loc := [.ptr bk 0, .ptr an 0, .null] } =
+      .normal { mem := m1, loc := [.ptr bk 0, .ptr an 0, .null] } := by
+    have hst : m.storeSlot bk ((14 : Nat) : Int) (.int (if true then (n : Int) + 1 else (n : Int) - 1)) = .ok m1 := by
+      simpa [m1, ks1] using storeSlot_of (m := m) (b := bk) (i := 14) (.int ((n : Int) + 1)) k1 k2 kw h14
+    have hev := incdec_i32_slot m m1 [.ptr bk 0, .ptr an 0, .null] (.load (.var 0) .ptr) bk 14 (n : Int) true
+      (by simp [evalE, evalL, readPlace, bind, Except.bind]) (by simpa using hcnt) (by simp; omega) (by simp; omega) hst
+    simp only [exec, hev]
+  rw [exec_seq_normal hS2]
+  -- the array with one more element; the old one is released
+  have hm1k : m1[bk]? = some { kblk with slots := ks1 } := by simp [m1, hbk]
+  have hm1l : m1[bl]? = some gblk := by simp only [m1]; rw [set_other (Ne.symm hne)]; exact g1
+  have hks1_13 : ks1[13]? = some (.ptr bl 0) := by simp [ks1, List.getElem?_set, k3]
+  have hks1_14 : ks1[14]? = some (.int ((n : Int) + 1)) := by simp [ks1, List.getElem?_set, h14]
+  have hl13 : m1.loadSlot bk 13 = .ok (.ptr bl 0) := by
+    simpa using loadSlot_of (i := 13) hm1k k2 hks1_13 (by simp)
+  have hl14 : m1.loadSlot bk 14 = .ok (.int ((n : Int) + 1)) := by
+    simpa using loadSlot_of (i := 14) hm1k k2 hks1_14 (by simp)
+  let L := m.length
+  let gs2 : List Val := gblk.slots ++ [.undef]
+  let m2 : Mem := m1.set bl { gblk with live := false } ++ [{ cells := [], slots := gs2 }]
+  have hre : builtin "realloc_words" [.ptr bl 0, .int ((n : Int) + 2)] m1 = .ok (.ptr L 0, m2) := by
+    have := realloc_words_spec m1 bl gblk (n + 2) hm1l g2
+    have e1 : gblk.slots.take (n + 2) = gblk.slots := List.take_of_length_le (by omega)
+    have e2 : (n + 2) - gblk.slots.length = 1 := by omega
+    have e3 : m1.length = L := by simp [m1, L]
+    simp only [e1, e2, List.replicate_one, e3] at this
+    have e4 : (((n + 2 : Nat)) : Int) = (n : Int) + 2 := by omega
+    rw [e4] at this
+    exact this
+  let ks3 := ks1.set 13 (.ptr L 0)
+  let m3 : Mem := m2.set bk { kblk with slots := ks3 }
+  have hS3 : exec fuel (.expr (.assign (.slot (.load (.var 0) .ptr) 13) sgRealloc .ptr)) { mem := m1, loc := [.ptr bk 0, .ptr an 0, .null] } =
+      .normal { mem := m3, loc := [.ptr bk 0, .ptr an 0, .null] } := by
+    have hc1 : evalE sgCount1 { mem := m1, loc := [.ptr bk 0, .ptr an 0, .null] } = .ok (.int ((n : Int) + 1 + 1), { mem := m1, loc := [.ptr bk 0, .ptr an 0, .null] }) := by
+      have := evalE_addsub_i32 { mem := m1, loc := [.ptr bk 0, .ptr an 0, .null] } (.load (.slot (.load (.var 0) .ptr) 14) .i32) (.lit 1 .i32) ((n : Int) + 1) 1 false
+        (by simp [evalE, evalL, readPlace, hl14, bind, Except.bind]) (by simp [evalE]) (by simp; omega) (by simp; omega)
+      simpa [sgCount1] using this
+    have hw64 : wrapTo .u64 ((n : Int) + 1 + 1) = (n : Int) + 2 := by rw [wrapTo_u64_small _ (by omega) (by omega)]; omega
+    have hw64' : wrapTo .u64 (((n : Int) + 2) * 1) = (n : Int) + 2 := by rw [Int.mul_one, wrapTo_u64_small _ (by omega) (by omega)]
+    have hw64'' : wrapTo .u64 ((n : Int) + 2) = (n : Int) + 2 := wrapTo_u64_small _ (by omega) (by omega)
+    have hm2k : m2[bk]? = some { kblk with slots := ks1 } := by
+      simp only [m2]
+      rw [List.getElem?_append_left (by simp [m1]; exact hbk), set_other hne]; exact hm1k
+    have hst : m2.storeSlot bk 13 (.ptr L 0) = .ok m3 := by
+      simpa [m3, ks3] using storeSlot_of (m := m2) (b := bk) (i := 13) (.ptr L 0) hm2k k2 kw (by simp [ks1]; exact h13)
+    simp [exec, evalE, evalL, evalArgs, readPlace, writePlace, sgRealloc, hl13, hc1, binop, cmpInt, arith_u64, convert, hw64, hw64', hw64'', hre, hst,
+      bind, Except.bind, Except.map]
+  rw [exec_seq_normal hS3]
+  -- the new array is there: the else branch
+  have hLlen : m2.length = L + 1 := by simp [m2, m1, L]
+  have hm2k : m2[bk]? = some { kblk with slots := ks1 } := by
+    simp only [m2]
+    rw [List.getElem?_append_left (by simp [m1]; exact hbk), set_other hne]; exact hm1k
+  have hm3k : m3[bk]? = some { kblk with slots := ks3 } := by
+    have : bk < m2.length := by omega
+    simp [m3, this]
+  have hbkL : bk ≠ L := by omega
+  have hm3L : m3[L]? = some { cells := [], slots := gs2 } := by
+    simp only [m3]
+    rw [set_other (Ne.symm hbkL)]
+    simp only [m2]
+    rw [List.getElem?_append_right (by simp [m1, L])]
+    simp [m1, L]
+  have hks3_13 : ks3[13]? = some (.ptr L 0) := by simp [ks3, ks1, List.getElem?_set, h13]
+  have hks3_14 : ks3[14]? = some (.int ((n : Int) + 1)) := by simp [ks3, List.getElem?_set, hks1_14]
+  have hl13' : m3.loadSlot bk 13 = .ok (.ptr L 0) := by simpa using loadSlot_of (i := 13) hm3k k2 hks3_13 (by simp)
+  have hl14' : m3.loadSlot bk 14 = .ok (.int ((n : Int) + 1)) := by simpa using loadSlot_of (i := 14) hm3k k2 hks3_14 (by simp)
+  have hgs2len : gs2.length = n + 2 := by simp [gs2, g3, n]
+  have hcondF : testOf (some (.bin .eq (.load (.slot (.load (.var 0) .ptr) 13) .ptr) .null .i32)) { mem := m3, loc := [.ptr bk 0, .ptr an 0, .null] } =
+      .ok (false, { mem := m3, loc := [.ptr bk 0, .ptr an 0, .null] }) := by
+    simp [testOf, evalE, evalL, readPlace, hl13', binop, boolVal, truth, bind, Except.bind]
+  -- groups[count] = NULL
+  let gs4 := gs2.set (n + 1) .null
+  let m4 : Mem := m3.set L { cells := [], slots := gs4 }
+  have hsx1 : slotAdd m3 L 0 ((n : Int) + 1) = .ok (.ptr L ((n : Int) + 1)) := by
+    have : (0 : Int) ≤ (n : Int) + 1 ∧ (n : Int) + 1 ≤ (gs2.length : Int) := by rw [hgs2len]; omega
+    simp [slotAdd, Mem.block, hm3L, this, bind, Except.bind]
+  have hst4 : m3.storeSlot L ((n : Int) + 1) .null = .ok m4 := by
+    have := storeSlot_of (m := m3) (b := L) (i := n + 1) .null hm3L rfl rfl (by rw [hgs2len]; omega)
+    simpa [m4, gs4] using this
+  have hS5 : exec fuel (.expr (.assign (.slot (.sidx (.load (.slot (.load (.var 0) .ptr) 13) .ptr) (.load (.slot (.load (.var 0) .ptr) 14) .i32) 1) 0) .null .ptr))
+      { mem := m3, loc := [.ptr bk 0, .ptr an 0, .null] } = .normal { mem := m4, loc := [.ptr bk 0, .ptr an 0, .null] } := by
+    simp [exec, evalE, evalL, readPlace, writePlace, hl13', hl14', hsx1, convert, hst4, bind, Except.bind, Except.map]
+  -- in every later memory that still holds the struct: its two members, and the index `count - 1`
+  have kfacts : ∀ (mm : Mem) (v2 : Val), mm[bk]? = some { kblk with slots := ks3 } →
+      mm.loadSlot bk 13 = .ok (.ptr L 0) ∧
+      evalE sgIdx { mem := mm, loc := [.ptr bk 0, .ptr an 0, v2] } = .ok (.int (n : Int), { mem := mm, loc := [.ptr bk 0, .ptr an 0, v2] }) := by
+    intro mm v2 hmm
+    have a13 : mm.loadSlot bk 13 = .ok (.ptr L 0) := by simpa using loadSlot_of (i := 13) hmm k2 hks3_13 (by simp)
+    have a14 : mm.loadSlot bk 14 = .ok (.int ((n : Int) + 1)) := by simpa using loadSlot_of (i := 14) hmm k2 hks3_14 (by simp)
+    refine ⟨a13, ?_⟩
+    have := evalE_addsub_i32 { mem := mm, loc := [.ptr bk 0, .ptr an 0, v2] } (.load (.slot (.load (.var 0) .ptr) 14) .i32) (.lit 1 .i32) ((n : Int) + 1) 1 true
+      (by simp [evalE, evalL, readPlace, a14, bind, Except.bind]) (by simp [evalE]) (by simp <;> omega) (by simp <;> omega)
+    simpa [sgIdx] using this
+  have hm4k : m4[bk]? = some { kblk with slots := ks3 } := by simp only [m4]; rw [set_other hbkL, hm3k]
+  have hm4L : m4[L]? = some { cells := [], slots := gs4 } := by
+    have : L < m3.length := by simp [m3]; omega
+    simp [m4, this]
+  have hm4len : m4.length = L + 1 := by simp [m4, m3, hLlen]
+  -- the copy of the name
+  have hanlt : an < m.length := cstr_lt hn
+  have hm4an : m4[an]? = m[an]? := by
+    have e1 : an ≠ L := by omega
+    simp only [m4]; rw [set_other e1]
+    simp only [m3]; rw [set_other han.1]
+    simp only [m2]; rw [List.getElem?_append_left (by simp [m1]; exact hanlt), set_other han.2]
+    simp only [m1]; rw [set_other han.1]
+  have hn4 : m4.cstr an 0 = .ok nm := by rw [cstr_congr hm4an]; exact hn
+  obtain ⟨m5, hsd, hm5b, hm5len, hm5fr⟩ := strdup_spec m4 an 0 nm hn4
+  rw [hm4len] at hsd hm5b hm5len hm5fr
+  have hm5k : m5[bk]? = some { kblk with slots := ks3 } := by rw [hm5fr bk (by omega)]; exact hm4k
+  have hm5L : m5[L]? = some { cells := [], slots := gs4 } := by rw [hm5fr L (by omega)]; exact hm4L
+  let gs6 := gs4.set n (.ptr (L + 1) 0)
+  let m6 : Mem := m5.set L { cells := [], slots := gs6 }
+  have hgs4len : gs4.length = n + 2 := by simp [gs4, hgs2len]
+  have hsxn : ∀ mm : Mem, mm[L]? = some ({ cells := [], slots := gs4 } : Block) ∨ mm[L]? = some ({ cells := [], slots := gs6 } : Block) →
+      slotAdd mm L 0 (n : Int) = .ok (.ptr L (n : Int)) := by
+    intro mm hmm
+    have hgs6len : gs6.length = n + 2 := by simp [gs6, hgs4len]
+    rcases hmm with hmm | hmm
+    · have : (0 : Int) ≤ (n : Int) ∧ (n : Int) ≤ (gs4.length : Int) := by rw [hgs4len]; omega
+      simp [slotAdd, Mem.block, hmm, this, bind, Except.bind]
+    · have : (0 : Int) ≤ (n : Int) ∧ (n : Int) ≤ (gs6.length : Int) := by rw [hgs6len]; omega
+      simp [slotAdd, Mem.block, hmm, this, bind, Except.bind]
+  have hst6 : m5.storeSlot L (n : Int) (.ptr (L + 1) 0) = .ok m6 := by
+    have := storeSlot_of (m := m5) (b := L) (i := n) (.ptr (L + 1) 0) hm5L rfl rfl (by rw [hgs4len]; omega)
+    simpa [m6, gs6] using this
+  obtain ⟨k13_4, kidx_4⟩ := kfacts m4 .null hm4k
+  have hS6 : exec fuel (.expr (.assign (.slot sgLast 0) (.call "strdup" (.cons (.load (.var 1) .ptr) .nil)) .ptr))
+      { mem := m4, loc := [.ptr bk 0, .ptr an 0, .null] } = .normal { mem := m6, loc := [.ptr bk 0, .ptr an 0, .null] } := by
+    have hsx := hsxn m4 (Or.inl hm4L)
+    simp [exec, evalE, evalL, evalArgs, readPlace, writePlace, sgLast, k13_4, kidx_4, hsx, hsd, convert, hst6, bind, Except.bind, Except.map]
+  have hm6k : m6[bk]? = some { kblk with slots := ks3 } := by simp only [m6]; rw [set_other hbkL, hm5k]
+  have hm6L : m6[L]? = some { cells := [], slots := gs6 } := by
+    have : L < m5.length := by omega
+    simp [m6, this]
+  obtain ⟨k13_6, kidx_6⟩ := kfacts m6 .null hm6k
+  have hgs6n : gs6[n]? = some (.ptr (L + 1) 0) := by simp [gs6, List.getElem?_set, hgs4len]
+  have hl6 : m6.loadSlot L (n : Int) = .ok (.ptr (L + 1) 0) := loadSlot_of hm6L rfl hgs6n (by simp)
+  have hS7 : exec fuel (.expr (.assign (.var 2) (.load (.slot sgLast 0) .ptr) .ptr))
+      { mem := m6, loc := [.ptr bk 0, .ptr an 0, .null] } = .normal { mem := m6, loc := [.ptr bk 0, .ptr an 0, .ptr (L + 1) 0] } := by
+    have hsx := hsxn m6 (Or.inr hm6L)
+    simp [exec, evalE, evalL, readPlace, writePlace, sgLast, k13_6, kidx_6, hsx, hl6, convert, bind, Except.bind, Except.map]
+  have hgrow : exec fuel sgGrow { mem := m3, loc := [.ptr bk 0, .ptr an 0, .null] } = .normal { mem := m6, loc := [.ptr bk 0, .ptr an 0, .ptr (L + 1) 0] } := by
+    unfold sgGrow
+    rw [exec_seq_normal hS5, exec_seq_normal hS6, hS7]
+  rw [exec_seq_normal (by rw [exec_ite_false hcondF]; exact hgrow)]
+  have hfr6 : ∀ b, b < L → b ≠ bk → b ≠ bl → m6[b]? = m[b]? := by
+    intro b hb hbk' hbl'
+    have e1 : b ≠ L := by omega
+    simp only [m6]; rw [set_other e1, hm5fr b (by omega)]
+    simp only [m4]; rw [set_other e1]
+    simp only [m3]; rw [set_other hbk']
+    simp only [m2]; rw [List.getElem?_append_left (by simp [m1]; exact hb), set_other hbl']
+    simp only [m1]; rw [set_other hbk']
+  have hm6len : m6.length = L + 2 := by simp [m6, hm5len]
+  have hm6new : m6.cstr (L + 1) 0 = .ok nm := by
+    have hz := cstr_nz hn
+    have : m6[L + 1]? = m5[L + 1]? := by simp only [m6]; rw [set_other (by omega)]
+    rw [cstr_congr this]
+    exact hm5b.cstr0 (rest := []) hz
+  refine ⟨m6, [.ptr bk 0, .ptr an 0, .ptr (L + 1) 0], by simp [exec, evalE, evalL, readPlace, bind, Except.bind, L], ?_, hm6len, hfr6, ?_⟩
+  · -- the object lists the old names and the new one
+    refine ⟨⟨_, hm6k, k2, hks3_13, by simp [hks3_14, n]⟩, ⟨_, hm6L, rfl, by simp [gs6, hgs4len, n], ?_⟩⟩
+    intro i hi
+    have hi' : i < n + 1 := by simpa [n] using hi
+    by_cases hin : i < n
+    · obtain ⟨e1, e2⟩ := g4 i hin
+      have hmem := hd (gl[i]) (List.getElem_mem hin)
+      have hgi : gs6[i]? = some (.ptr (gl[i]).1 0) := by
+        have a1 : i ≠ n := by omega
+        have a2 : i ≠ n + 1 := by omega
+        simp only [gs6, gs4, gs2]
+        rw [List.getElem?_set_ne (Ne.symm a1), List.getElem?_set_ne (Ne.symm a2), List.getElem?_append_left (by rw [g3]; omega)]
+        exact e1
+      have hlt := cstr_lt e2
+      have hc : m6.cstr (gl[i]).1 0 = .ok (gl[i]).2 := by rw [cstr_congr (hfr6 _ hlt hmem.1 hmem.2)]; exact e2
+      simp only [List.getElem_append_left hin]
+      exact ⟨hgi, hc⟩
+    · have hin' : i = n := by omega
+      subst hin'
+      have hx : (gl ++ [(m.length + 1, nm)])[n]'hi = (m.length + 1, nm) := by
+        simp [n]
+      rw [hx]
+      exact ⟨hgs6n, hm6new⟩
+  · intro kb kb' hkb hkb'
+    rw [k1] at hkb; injection hkb with hkb; subst hkb
+    rw [hm6k] at hkb'; injection hkb' with hkb'; subst hkb'
+    refine ⟨k2, kw, rfl, by simp [ks3, ks1], ?_⟩
+    intro i h13' h14'
+    simp only [ks3, ks1]
+    rw [List.getElem?_set_ne (Ne.symm h13'), List.getElem?_set_ne (Ne.symm h14')]
+
+theorem firstN_mem (gl : List (Nat × List UInt8)) (nm : List UInt8) :
+    firstN gl nm < gl.length ↔ nm ∈ gl.map (·.2) := by
+  induction gl with
+  | nil => simp [firstN]
+  | cons e es ih =>
+    by_cases hm : (e.2 == nm) = true
+    · have : firstN (e :: es) nm = 0 := by simp [firstN, List.takeWhile, hm]
+      have h2 : e.2 = nm := by simpa using hm
+      simp [this, h2]
+    · have hm' : (e.2 == nm) = false := by simpa using hm
+      have e1 : firstN (e :: es) nm = firstN es nm + 1 := by simp [firstN, List.takeWhile, hm']
+      have h2 : ¬ e.2 = nm := by simpa using hm
+      have h3 : ¬ nm = e.2 := fun h => h2 h.symm
+      rw [e1]
+      simp only [List.length_cons, Nat.add_lt_add_iff_right, List.map_cons, List.mem_cons, h3, false_or]
+      exact ih
+
+/-- `setGroupList` (lib/helpers.c) on the translated term: no fault, and afterwards the object's group list is the model's
+    `addGroup` of the old one – the name is appended exactly when it was not there, first-appearance order is kept – and the
+    pointer returned is the list's element for that name. -/
+theorem C_setGroupList (m : Mem) (bk bl an : Nat) (gl : List (Nat × List UInt8)) (nm : List UInt8) (h : GlMem m bk bl gl)
+    (hn : m.cstr an 0 = .ok nm) (hkw : ∀ blk, m[bk]? = some blk → blk.writable = true) (hne : bk ≠ bl)
+    (hd : ∀ e, e ∈ gl → e.1 ≠ bk ∧ e.1 ≠ bl) (han : an ≠ bk ∧ an ≠ bl)
+    (hsmall : (gl.length : Int) + 2 < 2147483648) (fuel : Nat) (hf : gl.length + 1 < fuel) :
+    ∃ m' loc' b' bl' gl', exec fuel LeafFns.setGroupList.body { mem := m, loc := [.ptr bk 0, .ptr an 0, .undef] } =
+        .ret (.ptr b' 0) { mem := m', loc := loc' } ∧
+      GlMem m' bk bl' gl' ∧ gl'.map (·.2) = Econf.addGroup (gl.map (·.2)) nm ∧ (b', nm) ∈ gl' := by
+  have hc := firstN_mem gl nm
+  by_cases hlt : firstN gl nm < gl.length
+  · obtain ⟨loc', he⟩ := setGroupList_found m bk bl an gl nm h hn (by omega) fuel hf hlt
+    have hmem : nm ∈ gl.map (·.2) := hc.1 hlt
+    have hcont : (gl.map (·.2)).contains nm = true := by simpa using hmem
+    refine ⟨m, loc', _, bl, gl, he, h, by simp only [Econf.addGroup, hcont, if_true], ?_⟩
+    have hat := firstN_at gl nm hlt
+    have hx : gl[firstN gl nm] = ((gl[firstN gl nm]).1, nm) := Prod.ext rfl hat
+    have := List.getElem_mem hlt
+    rw [hx] at this
+    exact this
+  · obtain ⟨m', loc', he, hg, _, _, _⟩ := setGroupList_new m bk bl an gl nm h hn hkw hne hd han hsmall fuel hf hlt
+    have hmem : ¬ nm ∈ gl.map (·.2) := fun hh => hlt (hc.2 hh)
+    have hcont : (gl.map (·.2)).contains nm = false := by simpa using hmem
+    exact ⟨m', loc', _, _, _, he, hg, by simp only [Econf.addGroup, hcont, Bool.false_eq_true, if_false, List.map_append, List.map_cons, List.map_nil], by simp⟩
+
 end LeafKf
